@@ -16,7 +16,7 @@ from ..cfg import CFG, forward
 from ..kinds import has_call, reach
 from ..model import AnalysisError, unparse
 from ..report import RuleResult
-from ._c07_flow import ChildMasks, MaskedCells, ShrinkGuard
+from ._c07_flow import ChildMasks, MaskedCells, RegenGuard, ShrinkGuard
 from ._c07_util import (KEEP_ORDER, KEEP_SET, call_arg, dependence_leaves, derived_names, desugar_setattr, enclosing_ifs, expand_member_calls, falls_off, fname, fold_const, inline_local_closures, is_setattr,
                         literal_resolver, name_defs, reach3, real_defs, tv3, unfold_filtered_loops, unfold_generator_loops, unknown_leaves, xp, xt)
 
@@ -962,6 +962,37 @@ def rule_lenkind(ctx) -> RuleResult:
     return res
 
 
+def rule_regen(ctx) -> RuleResult:
+    res = RuleResult(
+        "C07.REGEN",
+        "C07",
+        "a vertices / cells getter generates a geometry (default segments, cells derived from something else) only where none "
+        "exists: with an existing array in the cache or fetched from the file — also an EMPTY one, what a removal of every cell "
+        "leaves — no path stores a generated array into self.<geom> / self._<geom>: what a removal left is what is read back",
+        floor=2,
+    )
+    p = ctx.p
+    seen = set()
+    for K in p.subclasses(p.cls("Points")):
+        for geom in ASSOC:
+            pr = K.props.get(geom)
+            fn0 = pr.getter if pr is not None else None
+            if fn0 is None or id(fn0.node) in seen:
+                continue
+            seen.add(id(fn0.node))
+            rg = RegenGuard(ctx.view(fn0), geom)
+            bad, has_fetch = rg.violations()
+            if not has_fetch:
+                continue
+            res.inst(f"{K.name}.{geom} getter: generated stores that can overwrite an existing (empty) geometry: {len(bad)}", nontrivial=True, ok=not bad)
+            for line, scen in bad[:1]:
+                res.find(K.name, geom, f"the getter can replace an existing empty `{geom}` array ({scen}) by a generated one", f"{fn0.module.relpath}:{line}",
+                         f"when the {geom} that exist ({scen}) are an empty array the getter falls into the branch that generates a geometry and stores it "
+                         f"(through the setter it is also written): after a removal that left no {geom}, the next read creates elements that "
+                         f"never existed, attached to the {ASSOC[geom]} data padded for them")
+    return res
+
+
 def rule_childmask(ctx) -> RuleResult:
     res = RuleResult(
         "C07.CHILDMASK",
@@ -1004,4 +1035,4 @@ def rule_childmask(ctx) -> RuleResult:
     return res
 
 
-RULES = [rule_pair, rule_order, rule_len, rule_maskonly, rule_count, rule_renum, rule_fresh, rule_childmask, rule_empty, rule_cacheguard, rule_lenkind]
+RULES = [rule_pair, rule_order, rule_len, rule_maskonly, rule_count, rule_renum, rule_fresh, rule_childmask, rule_empty, rule_cacheguard, rule_lenkind, rule_regen]
